@@ -160,3 +160,7 @@ CLAIMS['C06']['text'] += _SCAN % 'P32E2 sqrt (all 2^31-1 positive patterns)'
 CLAIMS['C07']['text'] += _SCAN % 'P32E2 to_i32/to_u32/to_i64/to_u64/from_i32/from_u32 (all 2^32 inputs each)'
 CLAIMS['C08']['text'] += _SCAN % 'P32E2 -> P16E1 and P32E2 -> P8E0 (all 2^32 sources)'
 CLAIMS['C09']['text'] += _SCAN % 'P32E2 round/floor/ceil/trunc/fract (all 2^32 patterns)'
+
+CLAIMS['C04']['text'] += (' THOROUGH TIER: C12.q8_to_posit_all (to_posit on ALL 2^32 Q8E0 states, 368 native_decide shards) and C12.q8_history_rounds: C04 for Q8E0 at full strength '
+    '(any finite history with in-range partial sums: accumulator exact AND to_posit = the exact sum rounded once), no further hypothesis.')
+CLAIMS['C12']['text'] += ' THOROUGH TIER: q8_to_posit_all - to_posit of EVERY one of the 2^32 Q8E0 states is the posit rounding of its exact value (NaR for the NaR image).'
